@@ -29,7 +29,7 @@ CHECKS.update({
 })
 CHECKS.update({
  "C07": dict(level=MC, ref="DESIGN.md 5/C07",
-   text="Handle.tla is a state machine of a read/seek handle (std::io::Cursor semantics) and of write/append handles with flush/drop; MC_Handle explores every operation sequence of the bound, including a drop after every prefix (crash points), against ReadNeverBeyond, SeekErrorKeepsPos, FlushMakesVisible, DropPersistsExactlyWritten, LikeCursor. The same sequences are executed on real Memfs and Stdfs handles (every call under catch_unwind) and TLC replays each logged sequence through the Handle operators step by step.",
+   text="Handle.tla is a state machine of a read/seek handle (std::io::Cursor semantics) and of write/append handles with flush/drop; MC_Handle explores every operation sequence of the bound, including a drop after every prefix (crash points), against ReadNeverBeyond, SeekErrorKeepsPos, FlushMakesVisible, DropPersistsExactlyWritten, LikeCursor. The same sequences are executed on real Memfs and Stdfs handles (every call under catch_unwind) and TLC replays each logged sequence through the Handle operators step by step. Handles are opened under four spellings of the path (canonical, './' detour, 'zz/..' detour, relative to the cwd).",
    note="Trusted: TLC, Json module, harness logging, tmpfs for the Stdfs sandbox. Offsets beyond +-10^6 are not exercised (TLC ints are 32 bit). Two handles open on one file are observed but only a panic is judged (outside the single-handle statement).",
    technique="TLA+ handle state machine model-checked with TLC + TLC trace validation of real handle operation sequences (crash points = drop after every prefix)"),
  "C18": dict(level=MC, ref="DESIGN.md 5/C18",
@@ -47,15 +47,15 @@ CHECKS.update({
    text="Vfs.tla is the reference tree filesystem (one operator per trait method, written from the rustdoc); MC_Vfs explores it to a reachability fix-point over the bounded namespace with FailedCallAtomic, WriteLaw, AppendLaw, MoveIsRelocation, CopyLaw, SymlinkLaw, RemoveLaw as action properties. The REAL Memfs is explored to its own fix-point over the same alphabet (BFS by projection), every transition {pre, call, result, post} is judged by TLC against the same operators (result incl. documented error kind, full post-state), the reachable-set counts are compared (361 / 6859 on both sides), and long seeded histories with respelled arguments are validated step by step.",
    note=VFS_NOTE, technique="TLA+ reference state machine model-checked with TLC + TLC validation of every transition of a BFS over the real implementation + trace validation of random histories"),
  "C02": dict(level=MC, ref="DESIGN.md 5/C02",
-   text="Every tree of the bounded namespace in C02's domain (361 link-free + 1630 one-link trees) is materialised with std::fs in a tmpfs sandbox and built on a fresh Memfs; every call of the alphabet (~300 per tree) runs on both backends; TLC compares outcome, value and observed post-tree of the two sides (Trace_Pair) and judges each side against the Vfs reference operators to name the deviating side.",
+   text="Every tree of the bounded namespace in C02's domain (361 link-free + 1630 one-link trees) is materialised with std::fs in a tmpfs sandbox and built on a fresh Memfs; every call of the alphabet (~300 per tree) runs on both backends; TLC compares outcome, value and observed post-tree of the two sides (Trace_Pair) and judges each side against the Vfs reference operators to name the deviating side. The alphabet also contains relative / unclean / respelled arguments and symlink targets not in their shortest spelling.",
    note=VFS_NOTE + " tmpfs, umask 022, euid 0 (thorough: also uid 65534). Owners are not compared. One recorded finding (KF-A27-dir).",
    technique="differential TLC validation of paired implementation records against each other and against the TLA+ reference (exhaustive trees x calls)"),
  "C03": dict(level=MC, ref="DESIGN.md 5/C03",
-   text="MemfsRep!RepViolation states C03 clause by clause over Memfs' three indexes (entries, files, child sets) plus cwd/root/poison; TLC evaluates it on the Debug-projected representation after EVERY step - successful or failed - of the BFS of the real Memfs and of seeded histories in which half of the arguments are out of domain (through links, below files, root, '..' chains, odd strings); MC_Vfs shows TreeOK is an invariant of the reference; AbsOf is the refinement mapping used for the step check.",
+   text="MemfsRep!RepViolation states C03 clause by clause over Memfs' three indexes (entries, files, child sets) plus cwd/root/poison; TLC evaluates it on the Debug-projected representation after EVERY step - successful or failed - of the BFS of the real Memfs and of seeded histories in which half of the arguments are out of domain (through links, below files, root, '..' chains, odd strings); MC_Vfs shows TreeOK is an invariant of the reference; AbsOf is the refinement mapping used for the step check. Also: arguments that are not valid UTF-8 (raw 0xFF byte) in the adversarial histories, and every interleaving of a several-guard call (recursive chmod / chown, copy with options) with every single-step mutator on a second thread, the quiescent representation judged with the same operator.",
    note=VFS_NOTE + " Quiescent states after concurrent schedules are judged with the same operator by C04.",
    technique="TLA+ representation invariant + refinement mapping evaluated by TLC on every logged implementation state (BFS + adversarial histories)"),
  "C06": dict(level=MC, ref="DESIGN.md 5/C06",
-   text="MC_Data checks the line-helper round trip, one-newline-per-line, append-keeps-prefix and UTF-8 concatenation on every line list of the bound; MC_Vfs checks WriteLaw/AppendLaw (only that file changes) on every reachable state; seeded histories interleaving write/append/line helpers/copy/move over four files with empty, multi-byte, invalid UTF-8, newline-laden and multi-kilobyte data read two files back after every step and TLC compares with the byte-vector model.",
+   text="MC_Data checks the line-helper round trip, one-newline-per-line, append-keeps-prefix and UTF-8 concatenation on every line list of the bound; MC_Vfs checks WriteLaw/AppendLaw (only that file changes) on every reachable state; seeded histories interleaving write/append/line helpers/copy/move over four files with empty, multi-byte, invalid UTF-8, newline-laden and multi-kilobyte data read two files back after every step and TLC compares with the byte-vector model. Histories also open, read and drop READ handles between the other calls (never a change) and use line lists with empty elements.",
    note=VFS_NOTE + " Handle-based writes are decided by C07; the Stdfs side by C02.",
    technique="TLA+ byte-vector model (Vfs.tla content operators, Lines, Utf8Valid) model-checked with TLC + trace validation of data histories"),
  "C09": dict(level=MC, ref="DESIGN.md 5/C09",
@@ -63,11 +63,11 @@ CHECKS.update({
    note=VFS_NOTE + " copy with follow(true) is not judged (placement of followed entries, DESIGN A24, is recorded as open); Stdfs copy/move are compared in C02.",
    technique="TLA+ action properties model-checked with TLC + TLC validation of before/after snapshots of the real copy/move over exhaustive (tree, src, dst, option) tuples"),
  "C10": dict(level=MC, ref="DESIGN.md 5/C10",
-   text="MC_Vfs checks SymlinkLaw / RemoveLaw on every reachable state; the real Memfs runs the (link position, target position) grid over names {a,b} depth <= 3 x target kind {file, dir, missing} x {absolute, relative} spelling, each followed by readlink, readlink_abs, is_*, entry accessors incl. follow(true) twice, chmod/chown without follow, readlink on a non-link and remove of the link; TLC judges every step (RelC navigation law, link exclusion, target untouched).",
+   text="MC_Vfs checks SymlinkLaw / RemoveLaw on every reachable state; the real Memfs runs the (link position, target position) grid over names {a,b} depth <= 3 x target kind {file, dir, missing} x {absolute, relative} spelling, each followed by readlink, readlink_abs, is_*, entry accessors incl. follow(true) twice, chmod/chown without follow, readlink on a non-link and remove of the link; TLC judges every step (RelC navigation law, link exclusion, target untouched). Also on both backends: trees with a link whose target does not exist (queries, remove, remove_all, move_p, symlink over it), and following a CLONE of an already followed entry.",
    note=VFS_NOTE + " Stdfs side: C02 (same queries in its alphabet).",
    technique="TLA+ reference operators + TLC trace validation of the exhaustive link/target grid on the real implementation"),
  "C13": dict(level=MC, ref="DESIGN.md 5/C13",
-   text="The specification has no notion of route: the same seeded histories (random with respelled arguments, link grid, data) are executed on Memfs directly and through Vfs::Memfs; both transcripts are validated by Trace_Vfs and compared event for event; every entry() result carries the VfsEntry accessors next to the wrapped entry's own accessors (wrap flag judged by TLC); a table check makes sure every trait method is exercised through both routes by some check.",
+   text="The specification has no notion of route: the same seeded histories (random with respelled arguments, link grid, data) are executed on Memfs directly and through Vfs::Memfs; both transcripts are validated by Trace_Vfs and compared event for event; every entry() result carries the VfsEntry accessors next to the wrapped entry's own accessors (wrap flag judged by TLC); a table check makes sure every trait method is exercised through both routes by some check. Also: write/flush/drop and read/seek sequences on each backend directly and through Vfs::stdfs()/Vfs::memfs() with an observer reading after every write (identical transcripts required by Trace_Handle!JudgeWR), and config_dir direct vs enum in the environments where the user's directory cannot be determined.",
    note=VFS_NOTE + " Vfs::Stdfs routing rides on C02 (the grid calls Stdfs through the trait).",
    technique="TLC trace validation of paired transcripts (direct vs enum route) + event-wise transcript equality"),
 })
@@ -77,7 +77,7 @@ CHECKS.update({
    note=VFS_NOTE + " Interleavings are enumerated at critical-section granularity - complete for the shared state because MemfsInner is reachable only through a guard; memory ordering inside std is out of scope. Hooks: --cfg rivia_verif (add-only).",
    technique="TLA+ concurrent state machine (threads x critical sections) model-checked with TLC incl. linearizability + TLC validation of exhaustively enumerated real schedules (controlled scheduler via hooks)"),
  "C12": dict(level="exploration", ref="DESIGN.md 5/C12",
-   text="Totality.tla is the usable/wedged acceptance automaton (no action for panic, timeout, failed probe or poisoned lock; every error must be followed by a successful probe), model-checked by MC_Totality; the driver feeds every public Memfs method (all 52 trait methods, handles, entries options, builders), every path helper and the string/iterator extensions with every string up to length 3 (quick) / 4-5 (thorough) over an adversarial alphabet with 2-/3-/4-byte characters plus hand-picked nasties, each call under catch_unwind in supervised workers (progress file, stall = hang, RLIMIT_AS); TLC validates the event stream against the automaton. Exploration, not proof: detection of a panic is catch_unwind, of a hang the supervisor.",
+   text="Totality.tla is the usable/wedged acceptance automaton (no action for panic, timeout, failed probe or poisoned lock; every error must be followed by a successful probe), model-checked by MC_Totality; the driver feeds every public Memfs method (all 52 trait methods, handles, entries options, builders), every path helper and the string/iterator extensions with every string up to length 3 (quick) / 4-5 (thorough) over an adversarial alphabet with 2-/3-/4-byte characters plus hand-picked nasties, each call under catch_unwind in supervised workers (progress file, stall = hang, RLIMIT_AS); TLC validates the event stream against the automaton. Exploration, not proof: detection of a panic is catch_unwind, of a hang the supervisor. Harness builds carry overflow-checks, so an arithmetic overflow is a panic as in the crate's own test profile.",
    note="Trusted: catch_unwind, the supervisor's stall detection (10 s), TLC for the automaton. Bounded input length; 4 KiB names only by hand-picked samples.",
    technique="TLA+ acceptance automaton model-checked with TLC + TLC validation of supervised exploration traces (exhaustive short adversarial inputs)"),
 })
@@ -93,7 +93,7 @@ CHECKS.update({
 })
 CHECKS.update({
  "C11": dict(level=MC, ref="DESIGN.md 5/C11",
-   text="ChmodSym.tla is the comma-repeatable grammar [dfa]:[ugoa][-+=][rwx]; MC_ChmodSym runs it as a one-character-per-step scanner machine over every well-formed single and double clause and every short string of the alphabet x {file, dir, link} x start modes (final mode = SymMode, type bits kept, links unchanged, =/+/- algebra, malformed first clause => error and unchanged); MC_VfsPerm applies Vfs!Op_chmod_b / Op_chown_b to every tree of the namespace x every builder option combination (only targets change, exact value, octal beats symbolic, links never altered, is_exec/is_readonly agree with mode, error => unchanged). The real chmod_b/chown_b/chmod/chown/mkfile_m/mkdir_m run on one-entry trees x 512 permissions x clauses and on trees with links x the option cross product; TLC judges every step with the reference operators (Trace_VfsPerm over VfsJudge).",
+   text="ChmodSym.tla is the comma-repeatable grammar [dfa]:[ugoa][-+=][rwx]; MC_ChmodSym runs it as a one-character-per-step scanner machine over every well-formed single and double clause and every short string of the alphabet x {file, dir, link} x start modes (final mode = SymMode, type bits kept, links unchanged, =/+/- algebra, malformed first clause => error and unchanged); MC_VfsPerm applies Vfs!Op_chmod_b / Op_chown_b to every tree of the namespace x every builder option combination (only targets change, exact value, octal beats symbolic, links never altered, is_exec/is_readonly agree with mode, error => unchanged). The real chmod_b/chown_b/chmod/chown/mkfile_m/mkdir_m run on one-entry trees x 512 permissions x clauses and on trees with links x the option cross product; TLC judges every step with the reference operators (Trace_VfsPerm over VfsJudge). Also on BOTH backends: every tree of the C02 grid under three permission layouts x observers on every path (links included) x chmod builder variants (Trace_Pair, each side against the reference); builder programs executed after the cwd moved away; uid-only / gid-only chown and dirs-only / files-only chmod on two threads under every interleaving.",
    note=VFS_NOTE + " Unsettled: follow through a link that points to another link. Stdfs chmod/chown are compared in C02.",
    technique="TLA+ grammar scanner machine + reference operators model-checked with TLC; TLC validation of real chmod/chown transitions (exhaustive modes x clauses, trees x options)"),
 })
